@@ -442,6 +442,17 @@ impl Archive {
             for _ in 0..num_parts {
                 let (offset, _) = read_varint(&mut cursor)?;
                 let (size, _) = read_varint(&mut cursor)?;
+                // Every part lies in the data region in front of the footer. In a truncated or
+                // damaged file the directory may be garbage that still parses; its sizes were
+                // later used unchecked to allocate the read buffer of a part.
+                let in_data_region = offset
+                    .checked_add(size)
+                    .is_some_and(|end| end <= footer_start);
+                if !in_data_region {
+                    anyhow::bail!(
+                        "Invalid archive: a part of stream {stream_name:?} (offset {offset}, size {size}) lies outside the data region (truncated or corrupt file)"
+                    );
+                }
                 stream.parts.push(Part::new(offset, size));
             }
 
